@@ -35,6 +35,7 @@ def showRes : Res → String
   | .ok => "ok" | .empty => "err:empty" | .split => "err:split" | .portnum => "err:portnum"
   | .portrange => "err:portrange" | .host => "err:host" | .format => "err:format"
   | .domain => "err:domain" | .regex => "err:regex" | .nsname => "err:nsname" | .resname => "err:resname"
+  | .bracket => "err:bracket" | .unix => "err:unix"
 
 def flagOfName (n : String) : Flag :=
   match n with
@@ -80,9 +81,7 @@ def modelOp (op : String) (args : List Str) : String :=
   | "render" =>
     match args with
     | [ep, res, text] =>
-      -- the current template embeds verbatim; the repaired generator would bracket a bare IPv6 address
-      if renderMgmt ep res == text || renderMgmt (bracketV6 ep) (bracketV6 res) == text then "-"
-      else "render-differs"
+      if renderMgmt ep res == text then "-" else "render-differs"
     | _ => "bad-op"
   | _ => "bad-op"
 
